@@ -197,3 +197,54 @@ void group_destroy(Group *g)
 }
 
 }  // namespace tbbstub
+
+
+// ---- tbbmalloc's aligned allocation over the per-run arena -------------------------------------------------------------------
+#include <new>
+#include <stdint.h>
+
+#include "tbb/scalable_allocator.h"
+namespace {
+struct AlignedHeader
+{
+  void *raw;
+  size_t size;
+  uint64_t magic;
+};
+const uint64_t ALIGNED_MAGIC = 0x7bbA11ca7edULL;
+}  // namespace
+extern "C" {
+void *scalable_aligned_malloc(size_t size, size_t alignment)
+{
+  if (alignment == 0 || (alignment & (alignment - 1)) || size > (size_t)1 << 40)
+    return nullptr;
+  if (alignment < sizeof(void *))
+    alignment = sizeof(void *);
+  void *raw = ::operator new(size + alignment + sizeof(AlignedHeader), std::nothrow);
+  if (!raw)
+    return nullptr;
+  uintptr_t p = ((uintptr_t)raw + sizeof(AlignedHeader) + alignment - 1) & ~(uintptr_t)(alignment - 1);
+  AlignedHeader *h = (AlignedHeader *)p - 1;
+  h->raw = raw;
+  h->size = size;
+  h->magic = ALIGNED_MAGIC;
+  return (void *)p;
+}
+void scalable_aligned_free(void *ptr)
+{
+  if (!ptr)
+    return;
+  AlignedHeader *h = (AlignedHeader *)ptr - 1;
+  if (h->magic != ALIGNED_MAGIC)
+    __builtin_trap();  // not a block of this allocator (or freed twice): the real library would corrupt its heap
+  h->magic = 0;
+  ::operator delete(h->raw);
+}
+size_t scalable_msize(void *ptr)
+{
+  if (!ptr)
+    return 0;
+  AlignedHeader *h = (AlignedHeader *)ptr - 1;
+  return h->magic == ALIGNED_MAGIC ? h->size : 0;
+}
+}
